@@ -12,6 +12,7 @@ SIZES = {'quick': 1500000, 'thorough': 24000000}
 def run_hostile(prop, tier, v, n=None, extra_batches=()):
     """Returns (stats dict, list of shard results).  Violations/crashes are added to the verdict v."""
     bdir = build.build('asan')
+    bcov = build.build('asancov')     # same sanitizers + an edge-coverage callback that feeds the mutator's pool
     wd = fw.workdir(prop)
     seed = fw.seed()
     corpus_path = os.path.join(wd, 'corpus.hxb')
@@ -23,7 +24,7 @@ def run_hostile(prop, tier, v, n=None, extra_batches=()):
     for s in range(nsh):
         sf = os.path.join(wd, 'sig%d.bin' % s)
         sigfiles.append(sf)
-        cmds.append([bdir + '/hx', 'mutate', corpus_path, '--n', str(n), '--seed', str(seed), '--shard', str(s), '--nshards', str(nsh),
+        cmds.append([bcov + '/hx', 'mutate', corpus_path, '--n', str(n), '--seed', str(seed), '--shard', str(s), '--nshards', str(nsh),
                      '--out', os.path.join(wd, 'viol'), '--sigfile', sf, '--keep-per-key', '2'])
     results = fw.run_many(cmds, timeout=7200)
     # replay stored witnesses of known findings / fixed defects for this property
@@ -51,7 +52,9 @@ def run_hostile(prop, tier, v, n=None, extra_batches=()):
     samples = []
     for s in parsed['S']:
         samples.extend(s.get('samples', [])[:1])
-    return dict(stats=stats, evaluations=evals, distinct=distinct, samples=samples[:4], corpus=len(hxb.read_batch(corpus_path)))
+    edge = dict(edge_cells_max_per_shard=max([s.get('edge_cells', 0) for s in parsed['S']] or [0]), promoted_to_pool=sum(s.get('promoted', 0) for s in parsed['S']),
+                mutated_from_pool=sum(s.get('from_pool', 0) for s in parsed['S']))
+    return dict(stats=stats, evaluations=evals, distinct=distinct, samples=samples[:4], corpus=len(hxb.read_batch(corpus_path)), edge=edge)
 
 
 def coverage(h, rule_extra=''):
@@ -65,6 +68,7 @@ def coverage(h, rule_extra=''):
                 '(hash of the sequence of API return codes, (in_state,out_state) pairs at call boundaries, callback kinds and data hashes). ' + rule_extra,
         'samples': h['samples'],
         'corpus_cases': h['corpus'],
+        'edge_coverage_feedback': dict(h.get('edge', {}), what='AFL-style edge map (65536 cells) filled by a compiler-inserted callback in the library objects; mutated cases that reach new cells join the mutation pool'),
         'observed': {k: st.get(k) for k in ('api_calls', 'api_rc', 'callbacks', 'cb_nonok', 'tx_created', 'tx_completed', 'tx_destroyed_by_harness',
                                             'tx_auto_destroyed', 'data_other_in', 'data_other_out', 'handover_resumes', 'tunnels', 'gaps', 'gaps_refused',
                                             'sticky_in', 'sticky_out', 'sticky_seq', 'monitor_checks', 'body_bytes_req', 'body_bytes_res', 'end_markers',
